@@ -1201,7 +1201,11 @@ impl<'ast, 'res> Resolver<'ast, 'res> {
                     class
                 }
             }
-            Expr::Member { object, .. } => self.classify_expr(object),
+            // A member access that is not the callee of a call has no value at run time: the
+            // evaluator raises `Type mismatch` for it, whatever the object is.
+            Expr::Member { object, .. } => {
+                self.classify_expr(object).join(ExprClass::PureMayTrap)
+            }
             Expr::Call { callee, args, .. } => {
                 let mut class = args
                     .args
